@@ -58,7 +58,8 @@ def add_stats(dst: dict, src: dict) -> None:
 def _worker(args: tuple) -> dict:
     mod_name, seed, tier, wid, count, wall_cap, extra = args
     faulthandler.enable()
-    faulthandler.dump_traceback_later(max(wall_cap * 3, 120), exit=True)
+    per_case_watchdog = max(wall_cap * 3, 600)  # a hung case is killed; re-armed for every case so that a slow machine does not kill healthy workers
+    faulthandler.dump_traceback_later(per_case_watchdog, exit=True)
     import importlib
     import logging
     import warnings
@@ -94,6 +95,8 @@ def _worker(args: tuple) -> dict:
             agg["capped"] = True
             break
         case_seed = mix("case", seed, wid, j)
+        faulthandler.cancel_dump_traceback_later()
+        faulthandler.dump_traceback_later(per_case_watchdog, exit=True)
         try:
             rng = random.Random(case_seed)
             doc = mod.gen_case(rng, tier)
